@@ -678,11 +678,11 @@ type chanOp struct {
 	Kind     chanOpKind
 	In       ssa.Instruction
 	Fn       *ssa.Function
-	InSelect *ssa.Select // non-nil when the op is a case of a select
-	Blocking bool        // select without default, or plain op
+	InSelect *ssa.Select  // non-nil when the op is a case of a select
+	Blocking bool         // select without default, or plain op
 	Sel      []*types.Var // for select: fields of the other cases' channels (nil entries for non-field channels)
-	Val      ssa.Value   // value sent (send)
-	Base     ssa.Value   // struct value the field belongs to
+	Val      ssa.Value    // value sent (send)
+	Base     ssa.Value    // struct value the field belongs to
 }
 
 // chanFieldOf: if v is the channel loaded from struct field f returns f.
